@@ -134,6 +134,11 @@ static void scen_c15(int depth, int sampled, int sampled_len, int shard, int nsh
         c15_op(&b, 5); c15_op(&b, nullvol ? 9 : 8);
         c15_validate_st = vst; c15_op(&b, 19); c15_validate_st = 0;
         c15_op(&b, 12); c15_op(&b, 11); c15_op(&b, 3); c15_op(&b, 15); c15_op(&b, 12); }
+    /* drills around the save-state blob: MainInit does not consume it, the first TPM_Startup of a TPM 1.2 does */
+    for (int v = 0; v < 2; v++) for (int withstartup = 0; withstartup < 2; withstartup++) for (int nullblob = 0; nullblob < 2; nullblob++) {
+        c15_reset(); c15_op(&b, v); c15_op(&b, 5);
+        if (nullblob) { TPM_RESULT r = TPMLIB_SetState(TPMLIB_STATE_SAVE_STATE, NULL, 0); tr("api op=setstate st=4 kind=null ret=%u id=-", r); c15_stor(); } else c15_op(&b, 10);
+        c15_op(&b, 13); c15_op(&b, 3); if (withstartup) c15_op(&b, 15); c15_op(&b, 13); c15_op(&b, 4); c15_op(&b, 13); c15_op(&b, 11); c15_op(&b, 12); }
     /* sampled: longer random sequences biased towards running TPMs */
     for (int i = 0; i < sampled; i++) { c15_reset(); int len = 4 + rnd(sampled_len);
         for (int d = 0; d < len; d++) { int op = chance(25) ? (int[]){3, 4, 15, 5, 11}[rnd(5)] : rnd(C15_NOPS); c15_op(&b, op); } }
